@@ -224,6 +224,55 @@ def commitment_ds(transaction, refs):
     return ds
 
 
+PRINT_LIKE = '1.2.840.10008.5.1.1.1'
+_OTHER_DISPATCHER = []
+
+
+def other_dispatcher_service():
+    """An application-defined provider built on the documented MessageDispatcherSCP base (a print or MPPS provider,
+    say) that serves N-ACTION and N-EVENT-REPORT of its own SOP class in the same process."""
+    from pynetdicom2 import sopclass, dimsemessages
+    if not _OTHER_DISPATCHER:
+        class FilmSession(sopclass.MessageDispatcherSCP):
+            sop_classes = [PRINT_LIKE]
+            calls = []
+
+            def n_action(self, asce, ctx, msg):
+                self.calls.append('n_action')
+                rsp = dimsemessages.NActionRSPMessage()
+                rsp.message_id_being_responded_to = msg.message_id
+                rsp.sop_class_uid = ctx.sop_class
+                rsp.status = 0
+                rsp.action_type_id = msg.action_type_id
+                rsp.affected_sop_instance_uid = msg.requested_sop_instance_uid
+                asce.send(rsp, ctx.id)
+
+            def n_event_report(self, asce, ctx, msg):
+                self.calls.append('n_event_report')
+                rsp = dimsemessages.NEventReportRSPMessage()
+                rsp.message_id_being_responded_to = msg.message_id
+                rsp.sop_class_uid = ctx.sop_class
+                rsp.status = 0
+                rsp.event_type_id = msg.event_type_id
+                rsp.affected_sop_instance_uid = msg.affected_sop_instance_uid
+                asce.send(rsp, ctx.id)
+        _OTHER_DISPATCHER.append(FilmSession)
+    return _OTHER_DISPATCHER[0]
+
+
+def use_other_dispatcher(case):
+    """Earlier in this process another dispatcher-based service handled an N-ACTION and an N-EVENT-REPORT."""
+    cls = other_dispatcher_service()
+    ae = svc.make_server({}, [cls()])
+    before = len(cls.calls)
+    msgs = [({0x0003: PRINT_LIKE, 0x0100: 0x0130, 0x0110: 1, 0x1001: '1.2.3.4', 0x1008: 1}, None, 1),
+            ({0x0002: PRINT_LIKE, 0x0100: 0x0100, 0x0110: 2, 0x1000: '1.2.3.4', 0x1002: 1}, None, 1)]
+    acc, fac, exc = run_primary(ae, [(1, PRINT_LIKE)], msgs + ['release'])
+    if exc is not None or cls.calls[before:] != ['n_action', 'n_event_report']:
+        raise Violation('%s:dispatcher:own-service' % PROP, 'an application-defined dispatcher service did not get its own '
+                        'N-ACTION / N-EVENT-REPORT requests: calls %r, exception %r' % (cls.calls[before:], exc), case)
+
+
 def action_case(value):
     msg_id, pc_id, transaction, nok, nfail, outcome_kind = value[:6]
     form = value[6] if len(value) > 6 else 'list'
@@ -246,6 +295,8 @@ def action_case(value):
     ok = refs[:nok]
     bad = [(c, i, 0x0112) for c, i in refs[nok:]]
     seen = []
+    if (msg_id + nok) % 3 == 1:
+        use_other_dispatcher(case)
 
     def on_request(remote_ae, uids_):
         seen.append((remote_ae, list(uids_)))
@@ -340,6 +391,8 @@ def report_case(value):
             'nok': nok, 'nfail': nfail, 'outcome': outcome_kind}
     refs = [(svc.CT_STORAGE, '1.2.3.4.%d' % (i + 1)) for i in range(nok + nfail)]
     seen = []
+    if (msg_id + nok) % 3 == 1:
+        use_other_dispatcher(case)
 
     def on_response(transaction_uid, success, failure):
         seen.append((str(transaction_uid), [tuple(map(str, s)) for s in success],
@@ -449,7 +502,7 @@ def run(ctx):
     warnings.simplefilter('ignore')
     ctx.rule = ('one Hypothesis search per provider callable (verification_scp, storage_scp in memory and file-backed, '
                 'qr_find_scp, modality_work_list_scp, qr_move_scp with a scripted destination, StorageCommitment '
-                'n_action incl. its N-EVENT-REPORT on the sub-association and a retry with the same Transaction UID after a result that could not be reported, StorageCommitment n_event_report): message '
+                'n_action incl. its N-EVENT-REPORT on the sub-association and a retry with the same Transaction UID after a result that could not be reported, an application-defined dispatcher service of another class having served N-ACTION / N-EVENT-REPORT earlier in the process, StorageCommitment n_event_report): message '
                 'ids over the 16-bit range with boundaries enumerated, SOP class/instance UIDs of length 1-64, odd '
                 'context ids 1-255, handler outcomes from every status class and EventHandlingError; requests are '
                 'reference-encoded, responses are read from the bytes handed to the provider; non-trivial = '
